@@ -257,7 +257,7 @@ func c07bundles(t *testing.T, rep *lib.Report) {
 					}
 					rep.Outcome(history)
 					rep.AddStates(1, 0, 0)
-			rep.AddStates(1, 0, 0)
+					rep.AddStates(1, 0, 0)
 				})
 			}
 		}
